@@ -40,6 +40,7 @@ def run(ctx, sess):
     ctx.rule('C09.10', 'distances between sample ids are narrowed only when bounded: every conversion of a 64-bit difference of two ids to 32 bits in the block writer is preceded on every path by a 64-bit compare that relates the same two ids to a third quantity (the length), so a distance of 2^32 or more is never mistaken for a small one')
     ctx.rule('C09.12', '"the signal length equals last id + 1 - first id": a block is left out only when it is full - the sample count of a partial block (zeros written behind a gap, then the end of the signal) exists only in its data chunk (shared with C15.7 / C01.h)')
     ctx.rule('C09.13', 'a block the queue refused can be submitted again ("every other sample reads back exactly" through the threaded writer): before the message is queued, a producer call stores nothing into the writer object that its own conditions test - a refused call leaves no state behind that changes how the retry is treated')
+    ctx.rule('C09.14', 'an all-gap summary entry stays absent whatever its weight: in the reader the count of a statistics accumulator is set by the decoders (which test the entry for NaN and then store 0), by the accumulator functions, or to 0 - never assigned a weight directly')
     ctx.rule('C09.11', 'a window without samples is absent, not a set of sentinels: where the reader turns an accumulator into a {mean, min, max, std} entry, the fields are delivered only behind a test of the sample count (an empty accumulator becomes NaN, as on the level-0 path)')
     ctx.rule('C09.8', 'an all-gap piece is absent, not NaN: combining with an empty accumulator copies the other operand / resets the target (shared with C20.2)')
     from .common import relay
@@ -523,6 +524,7 @@ def run(ctx, sess):
     empty_window_rule(ctx, P)
     from .c15 import full_block_only
     full_block_only(ctx, P, 'C09.12')
+    count_store_rule(ctx, P, 'C09.14')
     from .c07 import refused_send_rule
     refused_send_rule(ctx, P, 'C09.13')
 
@@ -802,3 +804,32 @@ def empty_window_rule(ctx, P):
                    'behind a test of the sample count' if guarded else
                    'an accumulator without samples (a window that lies inside a gap) is delivered as it was reset: mean 0, min DBL_MAX, max -DBL_MAX - the level-0 path returns NaN for the same window')
     ctx.floor('accumulator fields delivered as summary columns', n, 3)
+
+
+def count_store_rule(ctx, P, rule):
+    n = 0
+    decoders = set()
+    for fn in P.fns_in('src/reader.c'):
+        # a decoder tests its input for being finite / NaN and stores k on both arms
+        if any(c.callee in ('isfinite', '__builtin_isfinite', 'isnan', '__builtin_isnan', '__builtin_isinf_sign') for c in fn.calls()) or \
+                any(b.cond is not None and any(m.get('op') == 'call' and 'isfinite' in (m.get('callee') or '') or m.get('op') == 'call' and 'isnan' in (m.get('callee') or '') for m in walk(b.cond)) for b in fn.blocks.values()):
+            if any(strip_casts(ev.store_parts()[0]).get('field') == 'k' for ev in fn.stores() if ev.k == 'store'):
+                decoders.add(fn.name)
+    bad = []
+    for fn in P.fns_in('src/reader.c'):
+        if fn.name in decoders:
+            continue
+        for ev in fn.stores():
+            l0 = strip_casts(ev.store_parts()[0])
+            if ev.k != 'store' or l0.get('op') != 'member' or l0.get('field') != 'k' or l0.get('rec') != 'jls_statistics_s':
+                continue
+            n += 1
+            rhs = ev.store_parts()[1]
+            if rhs is not None and const_of(strip_casts(rhs)) == 0:
+                continue
+            bad.append((fn, ev))
+    ctx.ob(rule, not bad, (bad[0][0] if bad else P.fn('fsr_statistics')).name, 'weights of summary entries are set by the decoders', (bad[0][1] if bad else P.fn('fsr_statistics')).where(),
+           'decoders: %s; no other store of a count in the reader' % sorted(decoders) if not bad else
+           '%s assigns a weight to an accumulator directly: an entry the decoder marked absent (all-gap: NaN mean, count 0) becomes a NaN with weight and poisons the window it is merged into' % show(bad[0][1].e)[:50])
+    if not decoders:
+        raise AnalysisBroken('reader.c: summary entry decoders (NaN test + store of k) not found')
